@@ -21,9 +21,10 @@ var families = map[string]func(*Runner){
 	"replay":       FamilyReplay,
 	"more":         FamilyMore,
 	"tamperbundle": FamilyTamperBundle,
+	"http":         FamilyHTTP,
 }
 
-var familyOrder = []string{"happy", "crash", "subsets", "fault", "recrash", "instances", "startup", "dedup", "tamper", "pool", "clock", "replay", "more", "tamperbundle"}
+var familyOrder = []string{"happy", "crash", "subsets", "fault", "recrash", "instances", "startup", "dedup", "tamper", "pool", "clock", "replay", "more", "tamperbundle", "http"}
 
 // TestCorpus records the scenario corpus. Environment: VERIF_OUT (ndjson file to
 // append to), VERIF_TIER, VERIF_SEED, VERIF_SHARD=i/n, VERIF_FAMILIES (comma
